@@ -109,3 +109,10 @@ CASES = [
          ensures=[("xdrop", ens_generic)], timeout=20),
 ]
 MIN_OBLIGATIONS = 20
+
+from pyvc.api import bounded_via_script
+bounded = bounded_via_script("C09")
+ASSUMPTIONS.append("bounded stand-in (labelled, not a proof) for the drivers around the proved kernels (band cropping, swap/transpose, traceback, "
+                   "X-drop table growth, trace offsetting): align_banded / align_local_gapped / align_local_ungapped vs align_optimal and a brute-force "
+                   "maximum on sequence pairs of length <= 4 (bounded/C09.py).  The upper bound used is the maximum over ALL alignments "
+                   "(abutting gaps allowed for affine penalties too), the weakest reading of 'true optimum'")
